@@ -310,3 +310,54 @@ Theorem alias_elimination_lax_refuted :
   eval_clause_uf true a_store (fun _ => a_store) n_clause = None.
 Proof. repeat split; vm_compute; reflexivity. Qed.
 Print Assumptions alias_elimination_lax_refuted.
+
+(* ================= wildcards inside negated atoms (Datalog/WildNeg.v; added after seeded change
+   C01-6). The wildcard is not a term of the model: every "_" is encoded as a variable of its own
+   that nothing binds. "Negated atoms being judged against completely evaluated lower strata" then
+   reads: under the substitution s reached so far, !a holds iff NO valuation rho of the variables
+   that agrees with s turns a into a fact of N (= the completed lower strata in lfp / slfp, so
+   strata_exact is about exactly this reading); bound variables are fixed by s, every other
+   variable - every "_" - ranges over all constants. *)
+From MV Require Import Datalog.WildNeg.
+
+Theorem neg_wildcard_reading : forall (N : factset) (I : list fact) (a : atom) (s : subst) (pvs : list value),
+  eval_args s (aargs a) = Some pvs ->
+  (holds N I (PNeg a) s s <->
+   forall rho : Z -> const, (forall v c, lookup v s = Some c -> rho v = c) ->
+     ~ N (apred a, map (fun pv => match pv with VConst c => c | VVar v => rho v end) pvs)).
+Proof. exact neg_wild_existential. Qed.
+Print Assumptions neg_wildcard_reading.
+
+(* the evaluator (engine.oneStepEvalPremise on a negated atom, premiseNegAtom): the substitution is
+   kept iff no instance is stored, dropped iff one is *)
+Theorem neg_wildcard_step : forall (Sneg Spos : list fact) (a : atom) (s : subst) (pvs : list value),
+  eval_args s (aargs a) = Some pvs ->
+  (step Sneg Spos (PNeg a) s = Some [s] <->
+     forall rho : Z -> const, (forall v c, lookup v s = Some c -> rho v = c) ->
+       ~ In (apred a, map (fun pv => match pv with VConst c => c | VVar v => rho v end) pvs) Sneg) /\
+  (step Sneg Spos (PNeg a) s = Some [] <->
+     exists rho : Z -> const, (forall v c, lookup v s = Some c -> rho v = c) /\
+       In (apred a, map (fun pv => match pv with VConst c => c | VVar v => rho v end) pvs) Sneg).
+Proof. exact step_neg_wild. Qed.
+Print Assumptions neg_wildcard_step.
+
+(* !r(X, _) with X bound to c: "there is no fact r(c, anything)" *)
+Theorem neg_wildcard_bound_column : forall (N : factset) (I : list fact) (r x w : Z) (s : subst) (c : const),
+  lookup x s = Some c -> lookup w s = None ->
+  (holds N I (PNeg (mkAtom r [TVar x; TVar w])) s s <-> forall d, ~ N (r, [c; d])).
+Proof. exact neg_bound_wild. Qed.
+Print Assumptions neg_wildcard_bound_column.
+
+(* !r(_, _): two wildcards are two variables, read independently: "r has no fact" *)
+Theorem neg_wildcards_independent : forall (N : factset) (I : list fact) (r w1 w2 : Z) (s : subst),
+  lookup w1 s = None -> lookup w2 s = None -> w1 <> w2 ->
+  (holds N I (PNeg (mkAtom r [TVar w1; TVar w2])) s s <-> forall d1 d2, ~ N (r, [d1; d2])).
+Proof. exact neg_two_wild. Qed.
+Print Assumptions neg_wildcards_independent.
+
+(* hypotheses satisfiable, both outcomes occur: store {p4(1,2)}, !p4(V1, _) under V1 := 1 / V1 := 3 *)
+Example neg_wildcard_hypotheses_satisfiable :
+  eval_args [(1, CNum 1)] (aargs (mkAtom 4 [TVar 1; TVar 1001])) = Some [VConst (CNum 1); VVar 1001] /\
+  step [(4, [CNum 1; CNum 2])] [] (PNeg (mkAtom 4 [TVar 1; TVar 1001])) [(1, CNum 1)] = Some [] /\
+  step [(4, [CNum 1; CNum 2])] [] (PNeg (mkAtom 4 [TVar 1; TVar 1001])) [(1, CNum 3)] = Some [[(1, CNum 3)]].
+Proof. repeat split; vm_compute; reflexivity. Qed.
